@@ -12,7 +12,7 @@ func init() {
 
 func init() {
 	cfgs["C02"] = checkCfg{
-		Variant: "sched", Validate: true,
+		Variant: "sched", Validate: true, RaceID: "C17R", // an unsynchronised access to a Go map is a host crash ("concurrent map writes")
 		Stride: map[string]int{"quick": 50, "thorough": 25},
 		Budget: dur(150, 1500),
 		Rule:   "exhaustive enumeration of the shared program families plus the analyzer-defined domain (all syntactically valid small programs the real analyzer accepts) and a lattice of resource limits; every accepted program is run on both backends and must end in completion or an interrupt: never a Go panic, deadlock, livelock or poll-budget overrun; distinct = distinct (backend, observation) records",
